@@ -227,7 +227,12 @@ func (obj Object) CompletionAtPos(ctx context.Context, pos hcl.Pos) []lang.Candi
 		Start:    pos,
 		End:      eType.SrcRange.End,
 	}
-	editRange = objectItemPrefixBasedEditRange(remainingRange, fileBytes, trimmedBytes)
+	// the range starts where the typed prefix starts; blanks between
+	// the prefix and the position are part of what lies in between
+	rawPrefixBytes := bytes.TrimLeftFunc(leftBytes, func(r rune) bool {
+		return isObjectItemTerminatingRune(r) || unicode.IsSpace(r)
+	})
+	editRange = objectItemPrefixBasedEditRange(remainingRange, fileBytes, rawPrefixBytes)
 
 	return objectAttributesToCandidates(ctx, prefix, obj.cons.Attributes, declared, editRange)
 }
